@@ -13,7 +13,7 @@ RULE = ("correspondence: extracted Coq model of parse_directive_text vs the impl
         "all line separators, long bodies, additional_options, validate_options=False) for ALL registered docutils+Sphinx "
         "directive classes; the option tokenizer / converters / yaml / dedent results are captured from the implementation run "
         "and handed to the model as tables keyed by their argument (a different option block = table miss = disagreement); "
-        "search: the property clauses re-computed independently in Python from content.splitlines(); "
+        "search: the property clauses re-computed independently in Python from the content lines (split at CRLF/CR/LF); "
         "non-trivial = content has an option block, or arguments are parsed, or a warning/MarkupError results")
 TRUSTED = ["coq/Dir/DirModel.v + PyLines.v are hand transcriptions of parse_directive_text/_parse_directive_options/"
            "parse_directive_arguments and of str.splitlines/strip/split/join/textwrap.dedent (checked by correspondence, not proved)",
@@ -29,7 +29,7 @@ ORACLES = {
     "dedent": "textwrap.dedent is modelled (PyLines.dedent), compared through the captured option block of every dash-style case",
 }
 ASSUMPTIONS = ["dict iteration order = insertion order (CPython >= 3.7)",
-               "Unicode whitespace / line-separator classes as of the running interpreter (regenerated into Gen/C08Unicode.v)"]
+               "Unicode whitespace class of the running interpreter and the line separators of directives.split_lines (regenerated into Gen/C08Unicode.v)"]
 
 VOCAB = [":class: x", ":bad: v", ":name:", "", "text", "---", "----", "class: x", "  cont"]
 FIRST_LINES = ["", "one", "two words", "many words in  a row "]
@@ -490,10 +490,19 @@ def py_is_blank(s):
     return not s.strip()
 
 
+def content_lines(text):
+    """the lines of a directive's content: breaks at CRLF, CR, LF only (as markdown-it splits), no empty last line
+    for a trailing newline."""
+    ls = re.split(r"\r\n|\r|\n", text)
+    if ls[-1] == "":
+        ls.pop()
+    return ls
+
+
 def spec_split(cls, first, content):
-    """expected (n_opt, offset, body, merged, block) computed from content.splitlines() only."""
+    """expected (n_opt, offset, body, merged, block) computed from the content lines only."""
     import textwrap
-    lines = content.splitlines()
+    lines = content_lines(content)
     n_opt, block = 0, None
     if cls.option_spec:
         if lines and lines[0].startswith("---") and content.startswith("---"):
